@@ -1210,8 +1210,13 @@ func typedRun[T comparable](c TypedCase, name string, mk func(int) T, sentinel T
 			flipped := gogu.Flip(func(args ...T) []T { return args })
 			r1 := flipped(append([]T(nil), a...)...)
 			s1 := fmt.Sprint(r1)
+			// the second call has as many arguments as the first, all of them different
+			other := make([]T, len(a))
+			for i := range other {
+				other[i] = sentinel
+			}
+			flipped(other...)
 			flipped(append([]T(nil), b...)...)
-			flipped(append([]T(nil), a...)...)
 			if got := fmt.Sprint(r1); got != s1 {
 				return fmt.Errorf("the result of the first call of a flipped function read %s and reads %s after two more calls", s1, got)
 			}
